@@ -450,6 +450,44 @@ fn fri_faults(call: &FriCall, rng: &mut Rng, per_kind: usize) -> Vec<(String, Fr
     out
 }
 
+/// Shape shrinking for single-fault FRI violations: the smallest of a fixed ladder of shapes on
+/// which a fault of the same kind is still accepted.
+fn shrink_fri(seed: u64, kind: &str, n_friendly: u64) -> Option<(FriCall, String, String)> {
+    let ladder: [(&[u32], u32, u32); 9] = [
+        (&[0, 1], 0, 1),
+        (&[0, 1], 1, 1),
+        (&[0, 2], 0, 1),
+        (&[0, 1, 1], 0, 1),
+        (&[0, 3], 1, 1),
+        (&[0, 2, 1], 1, 2),
+        (&[0, 4], 1, 1),
+        (&[0, 1, 2, 1], 1, 1),
+        (&[0, 4, 3], 1, 2),
+    ];
+    for (steps, last, blow) in ladder {
+        let sum: u32 = steps.iter().sum();
+        let shape = FriShape { log_input: sum + last + blow, steps: steps.to_vec(), log_last_bound: last, n_friendly: n_friendly.min((sum + last + blow) as u64 + 2) };
+        let n = 1u64 << shape.log_input;
+        for qs in [vec![0u64], vec![n - 1], vec![0, 1], vec![0, n - 1], vec![1, n / 2]] {
+            let mut qs = qs.clone();
+            qs.sort();
+            qs.dedup();
+            let mut rng = Rng::new(seed ^ shape.log_input as u64 ^ (qs.len() as u64) << 4);
+            let coeffs = random_poly(&mut rng, 1usize << shape.log_degree_bound());
+            let inst = build_instance(&mut rng, shape.clone(), coeffs, None, qs.clone());
+            if !inst.call.run_verify().is_accept() {
+                continue;
+            }
+            for (name, f) in fri_faults(&inst.call, &mut rng, 16) {
+                if kind_of(&name) == kind && f.run_verify().is_accept() {
+                    return Some((f, name, format!("{} queries {qs:?}", shape_class(&shape, qs.len()))));
+                }
+            }
+        }
+    }
+    None
+}
+
 fn kind_of(name: &str) -> String {
     name.split('[').next().unwrap_or(name).split(' ').next().unwrap_or(name).to_string()
 }
@@ -493,8 +531,21 @@ pub fn c07(ctx: &mut Ctx) {
                 }
                 if o.is_accept() {
                     let class = format!("C07|fault-accepted|{kind}");
-                    let rep = mk_replay(&variant, &faulted, &o, &name);
-                    ctx.violation(&class, &format!("fault {name} accepted; shape {sc} queries {queries:?}"), rep);
+                    if ctx.seen_class(&class) {
+                        ctx.violation(&class, "", Value::Null);
+                        continue;
+                    }
+                    match shrink_fri(ctx.seed ^ k, &kind, shape.n_friendly) {
+                        Some((f2, name2, where2)) => {
+                            let o2 = f2.run_verify();
+                            let rep = mk_replay(&variant, &f2, &o2, &name2);
+                            ctx.violation(&class, &format!("fault {name2} accepted; shape {where2} (minimised from shape {sc}, {} queries, fault {name})", queries.len()), rep);
+                        }
+                        None => {
+                            let rep = mk_replay(&variant, &faulted, &o, &name);
+                            ctx.violation(&class, &format!("fault {name} accepted; shape {sc} queries {queries:?}"), rep);
+                        }
+                    }
                 }
             }
         } else {
